@@ -60,6 +60,8 @@ func main() {
 			usage()
 		}
 		os.Exit(cmdDump(pos))
+	case "search":
+		os.Exit(cmdSearch(pos[0]))
 	case "calls":
 		os.Exit(cmdCalls(pos))
 	case "check":
@@ -327,4 +329,16 @@ func init() {
 	if os.Getenv("GOVC_NOSLICE") != "" {
 		noSlice = true
 	}
+}
+
+// cmdSearch runs the witness search of one property on the real code (debug helper).
+func cmdSearch(prop string) int {
+	r, raw, err := runHarness(map[string]any{"mode": "search", "property": prop, "hint": ""})
+	if err != nil {
+		fmt.Println("error:", err)
+		fmt.Println(raw)
+		return 2
+	}
+	fmt.Printf("violated=%v tried=%d\ninput=%v\nobserved=%s\n", r.Violated, r.Tried, r.Input, r.Observed)
+	return 0
 }
